@@ -109,6 +109,20 @@ def check_outcome(rep, rid, fn, cname, clock, vlin, itp, st, retop, where):
     if rc == -1:
         # SAT_HIGH
         if D is None:
+            # FOREVER decided without ever forming base+delta: right only if the guards of the path already force the sum out of range
+            defaults = {name: (lo, hi) for (name, lo, hi) in itp.atoms.values()}
+            defaults.update({("L", f): rng for f, rng in itp.loads.items()})
+            defaults.update({("N", c): rng for c, rng in itp.calls.items()})
+            if all(a == 1 or a in defaults or any(v.lin is not None and v.k == 0 and lin_eq(v.lin, {a: 1}) for v in st.env.values()) for a in dlin):
+                box = atom_box(st, dlin, defaults)
+                if box[0] >= MAXV:
+                    rep.ok(rid, desc, {"class": cname, "path": path, "outcome": "SAT_HIGH (guards force the sum out of range)", "sum": [box[0], box[1]]})
+                    return
+                rep.violation(rid, where, fn.name, "%s:FOREVER-without-looking-at-the-sum" % sig_base,
+                              "%s returns DISPATCH_TIME_FOREVER on a path that never forms base+delta although its guards admit sums as small as %d (< 2^62-1): a "
+                              "representable - possibly long elapsed - time is reported as `never`, so a wait on it blocks; class %s, path %s"
+                              % (fn.name, max(box[0], SMIN), cname, path), {"box": [box[0], box[1]], "path": path})
+                return
             rep.unknown(rid, "%s: FOREVER returned but no SSA value with form base+delta (%s) on the path" % (desc, fmt_lin(dlin)))
             return
         if D[0] >= MAXV:
@@ -210,18 +224,21 @@ def run_walltime(rep, prog):
     rep.saw(fn)
     r = rep.rule("C12-W", "dispatch_walltime: result is on the wall clock and EXACT / SAT_HIGH / SAT_LOW for every path", floor=4)
     npaths = 0
-    loads = {"tv_sec": (0, MAXV // 1000000000), "tv_nsec": (0, 999999999)}
-    for null in (True, False):
-        for (dname, dlo, dhi) in DELTA_CLASSES:
-            itp = Interp(fn, {1: ("d", dlo, dhi)}, loads=loads, calls=CALLS)
-            def init(itp_, st, null=null):
-                st.null[0] = null
-            rets = itp.run(init)
-            for st, retop in rets:
-                npaths += 1
-                vl = {("N", READER["WALL"]): 1} if null else {("L", "tv_sec"): 1000000000, ("L", "tv_nsec"): 1}
-                cn = ("NULL" if null else "timespec") + "," + dname
-                check_outcome(rep, r, fn, cn, "WALL", vl, itp, st, retop, fn.file + ":" + str(fn.d.get("line")))
+    # two classes of timespec bases: representable on its own (tv_sec up to 2^62 ns), and beyond that but still below 2^63 ns (year 2116 .. 2262), where only
+    # a negative delta can bring the SUM back into range - saturation must be decided on the sum, not on the base
+    for tsname, loads in (("timespec", {"tv_sec": (0, MAXV // 1000000000), "tv_nsec": (0, 999999999)}),
+                          ("timespec-far", {"tv_sec": (MAXV // 1000000000 + 1, 2 * (MAXV // 1000000000) - 1), "tv_nsec": (0, 999999999)})):
+        for null in ((True, False) if tsname == "timespec" else (False,)):
+            for (dname, dlo, dhi) in DELTA_CLASSES:
+                itp = Interp(fn, {1: ("d", dlo, dhi)}, loads=loads, calls=CALLS)
+                def init(itp_, st, null=null):
+                    st.null[0] = null
+                rets = itp.run(init)
+                for st, retop in rets:
+                    npaths += 1
+                    vl = {("N", READER["WALL"]): 1} if null else {("L", "tv_sec"): 1000000000, ("L", "tv_nsec"): 1}
+                    cn = ("NULL" if null else tsname) + "," + dname
+                    check_outcome(rep, r, fn, cn, "WALL", vl, itp, st, retop, fn.file + ":" + str(fn.d.get("line")))
     return npaths
 
 
